@@ -16,7 +16,7 @@ With crash_after=None the callable runs to its end (returned / raised) in the ch
 
     result = run_in_child(fn, roots=[tmpdir], crash_after=3, torn=None)
     result = {"status": "crashed"|"returned"|"raised", "events": [[kind, basename], ...], "exception": "DataError"|None,
-              "died_before": [kind, basename]|None}
+              "died_before": [kind, basename]|None, "raised_in": [function names of the traceback, outermost first]|None}
 """
 from __future__ import annotations
 
@@ -26,6 +26,7 @@ import os
 import subprocess
 import sys
 import tarfile
+import traceback
 import warnings
 
 EXIT_CRASH = 137
@@ -38,6 +39,7 @@ class _Control:
         self.torn = torn
         self.report_fd = report_fd
         self.events = []
+        self.raised_in = None
 
     def watched(self, path):
         try:
@@ -64,7 +66,9 @@ class _Control:
         self.events.append([kind, name])
 
     def report(self, status, exception=None, died_before=None):
-        msg = json.dumps({"status": status, "events": self.events, "exception": exception, "died_before": died_before}).encode()
+        msg = json.dumps(
+            {"status": status, "events": self.events, "exception": exception, "died_before": died_before, "raised_in": self.raised_in}
+        ).encode()
         try:
             os.write(self.report_fd, msg)
         except OSError:
@@ -171,6 +175,7 @@ def run_in_child(fn, roots, crash_after=None, torn=None, before=None):
                 fn()
                 ctl.report("returned")
             except BaseException as e:  # pylint: disable=broad-except
+                ctl.raised_in = [fr.name for fr in traceback.extract_tb(e.__traceback__)]
                 ctl.report("raised", exception=type(e).__name__)
                 status = 3
         finally:
